@@ -20,6 +20,7 @@ from easynetwork.lowlevel.api_async.endpoints.datagram import AsyncDatagramEndpo
 from easynetwork.lowlevel.api_sync.endpoints.datagram import DatagramEndpoint
 from easynetwork.lowlevel.api_sync.transports.socket import SocketDatagramTransport
 
+from vlib import netutil  # noqa: E402
 from vlib import gen, memtransport, vloop
 from vlib.runner import HangDetected, cpu_guard
 
@@ -53,12 +54,7 @@ WATCHDOG = {"quick": 900, "thorough": 7200}
 
 
 def _udp_pair():
-    a = socket.socket(socket.AF_INET, socket.SOCK_DGRAM)
-    a.bind(("127.0.0.1", 0))
-    b = socket.socket(socket.AF_INET, socket.SOCK_DGRAM)
-    b.bind(("127.0.0.1", 0))
-    a.connect(b.getsockname())
-    b.connect(a.getsockname())
+    a, b = netutil.udp_pair()
     b.setsockopt(socket.SOL_SOCKET, socket.SO_RCVBUF, 1 << 20)
     a.setsockopt(socket.SOL_SOCKET, socket.SO_RCVBUF, 1 << 20)
     return a, b
